@@ -206,8 +206,64 @@ pub fn eval_sinks(cat: &Catalog, case: &Case) -> Evaluated {
     Evaluated { finding, outcome: out.class(), meter }
 }
 
+/// does the value ask its client-defined codec to fail?
+fn wants_failure(v: &model::ty::Val) -> bool {
+    // a `Fragile` is Record([Str, Bool(true)])
+    use model::ty::Val;
+    match v {
+        Val::Record(f) if f.len() == 2 && matches!((&f[0], &f[1]), (Val::Str(_), Val::Bool(true))) => true,
+        Val::Record(f) | Val::Tuple(f) | Val::Seq(f) | Val::Enum(_, f) => f.iter().any(wants_failure),
+        Val::Some(x) | Val::Ok(x) | Val::Err(x) => wants_failure(x),
+        Val::Map(m) => m.iter().any(|(k, v)| wants_failure(k) || wants_failure(v)),
+        _ => false,
+    }
+}
+
+/// clause `sinks-history`: a node writes a sequence of values, each through every sink; some
+/// writes fail half way (a client codec returns an error). Every successful write must give one byte
+/// stream in all sinks whatever happened before it, and a write fails only if its value asks for it.
+/// Items are (entry, hex of the reference encoding of the value).
+pub fn eval_sinks_history(cat: &Catalog, case: &Case) -> Evaluated {
+    let mut finding = None;
+    let mut last = "ok";
+    for (i, (name, hx)) in case.batch.iter().enumerate() {
+        let e = cat.by_name(name).unwrap();
+        let Ok(d) = model::dec::ref_decode(&cat.reg, &e.ty, &model::unhex(hx)) else { continue };
+        let f = e.encode_all;
+        let should_fail = wants_failure(&d.val);
+        let (out, _) = contain(u64::MAX, || f(&d.val));
+        last = out.class();
+        match &out {
+            Outcome::Ok(s) => {
+                if should_fail {
+                    finding = Some(Finding { class: "accepted".into(), detail: format!("write {i} ({name}) succeeded although its codec reports an error") });
+                } else if let Some(dis) = s.disagreement() {
+                    finding = Some(Finding { class: "sinks".into(), detail: format!("write {i} ({name}) after {} earlier writes: {dis}", i) });
+                } else if s.vec != (match contain(u64::MAX, || (e.encode)(&d.val)).0 { Outcome::Ok(b) => b, _ => s.vec.clone() }) {
+                    finding = Some(Finding { class: "sinks".into(), detail: format!("write {i} ({name}): writing the same value again gave other bytes") });
+                }
+            }
+            Outcome::Err(m) => {
+                if !should_fail {
+                    finding = Some(Finding { class: "rejected".into(), detail: format!("write {i} ({name}) failed: {m}") });
+                }
+            }
+            Outcome::Panic(m) => finding = Some(Finding { class: "panic".into(), detail: format!("write {i} ({name}): {m}") }),
+            Outcome::Hang => {}
+        }
+        if finding.is_some() {
+            break;
+        }
+    }
+    Evaluated { finding, outcome: last, meter: Meter::default() }
+}
+
 fn case_hash(c: &Case) -> u64 {
-    mix(mix(fnv(c.read_as.as_bytes()), fnv(c.clause.as_bytes())), mix(fnv(&c.input), fnv(c.expected.as_deref().unwrap_or("").as_bytes())))
+    let mut h = mix(mix(fnv(c.read_as.as_bytes()), fnv(c.clause.as_bytes())), mix(fnv(&c.input), fnv(c.expected.as_deref().unwrap_or("").as_bytes())));
+    for (n, x) in &c.batch {
+        h = mix(h, mix(fnv(n.as_bytes()), fnv(x.as_bytes())));
+    }
+    h
 }
 
 struct Written {
@@ -259,6 +315,31 @@ pub fn run(cat: &Catalog, cfg: &Config, stats: &mut Stats, run_seed: u64) -> Vec
                 submit(c, stats, &trace);
             }
         }
+    }
+
+    // ---- sinks with history: a sequence of writes, some of which fail half way ---------------------
+    if cfg.focus == "C15" && sw.chance(1, 2) {
+        stats.events += 1;
+        let size = 1 + sw.usize_below(12);
+        let gen = Gen::new(&cat.reg, size);
+        let fragile = ["Fragile", "(String, Fragile)", "Vec<Fragile>", "Brittle", "Vec<Brittle>", "(Brittle, Point)"];
+        let n = 2 + sw.usize_below(5);
+        let mut batch = Vec::new();
+        for _ in 0..n {
+            let e = if sw.chance(1, 2) {
+                cat.by_name(*sw.pick(&fragile[..])).unwrap()
+            } else {
+                &cat.entries[sw.usize_below(cat.entries.len())]
+            };
+            let v = gen.val(&e.ty, &mut wl);
+            batch.push((e.name.to_string(), model::hex(&model::enc::ref_encode(&cat.reg, &e.ty, &v, model::enc::Forms::canonical()))));
+        }
+        trace.push(format!("a node writes {:?} through all sinks, one after another", batch.iter().map(|b| b.0.as_str()).collect::<Vec<_>>()));
+        let mut c = Case::new("C15", "sinks-history", &batch[0].0.clone(), vec![]);
+        c.batch = batch;
+        c.fault = "sequence of writes through every sink; writes whose client codec reports an error fail half way".into();
+        c.fault_kind = "failed-write".into();
+        submit(c, stats, &trace);
     }
 
     // ---- sources: a program of primitive reads over a written, then cut, buffer -----------------
